@@ -16,6 +16,11 @@ BASE_ENV = dict(os.environ, CARGO_NET_OFFLINE="true", TZ="UTC")
 TARGET = "x86_64-unknown-linux-gnu"
 
 
+def _limit_file_size():
+    import resource
+    resource.setrlimit(resource.RLIMIT_FSIZE, (1 << 30, 1 << 30))
+
+
 def _run(cmd, env=None, cwd=None, timeout=None):
     try:
         r = subprocess.run(cmd, stdout=subprocess.PIPE, stderr=subprocess.STDOUT, text=True, env=env or BASE_ENV, cwd=cwd, timeout=timeout)
@@ -156,7 +161,7 @@ def run_phase(ph, pid, tier, seed, tmpdir, log):
             os.remove(out)
         cmd = base + [pid.lower(), "--seed", str(seed * 1000 + 7 + i), "--shard", str(i), "--of", str(shards), "--tier", tier, "--secs", str(secs), "--cases", str(ph.get("cases", 0)), "--out", out] + args
         lf = open(os.path.join(tmpdir, f"{kind}_shard_{i}.log"), "w")
-        procs.append((i, out, subprocess.Popen(cmd, stdout=lf, stderr=subprocess.STDOUT, env=env, cwd=cwd), lf))
+        procs.append((i, out, subprocess.Popen(cmd, stdout=subprocess.DEVNULL, stderr=lf, env=env, cwd=cwd, preexec_fn=_limit_file_size), lf))
     deadline = time.time() + secs * ph.get("timeout_factor", 6) + 600
     inconclusive = 0
     for i, out, pr, lf in procs:
